@@ -77,7 +77,7 @@ type Case struct {
 
 func setup() {
 	c := ev.C()
-	c.Rule = "concurrent workloads built with -race: 2-4 Modify sessions (negotiated one after the other, then run from real goroutines: ascending election ids from per-session disjoint sets with deliberate ties across sessions, batches over per-session disjoint keys with globally unique operation ids; one session in five ends with a request during which its client goes away - a response cannot be written - while the others go on), 0-2 Get readers and 0-2 Flush callers running concurrently over in-process streams (one random workload in four over a real grpc.Server on bufconn), GOMAXPROCS drawn from {2,4,16}, Gosched/microsleep perturbation at drawn points; plus election storms: 20-60 rounds in which 2-4 sessions announce distinct ids at the same moment (spin barrier), checked after every round. Oracle: no race-detector report (GORACE log parsed by the driver; signature = the racing gribigo functions), no panic/fatal error (process death is reported by the driver), every goroutine finishes under the watchdog (hang attributed from the goroutine dump), and at quiescence: learnt election id == maximum announced, primary is a session that announced it, every operation has exactly one terminal result, and - when no Flush overlapped - Get(ALL) equals the union of the per-session folds of acknowledged operations. Non-trivial = >=2 sessions announced while the others were still running and >=1 Get or Flush overlapped a Modify (measured with step counters); distinct by FNV-64 of the case JSON."
+	c.Rule = "concurrent workloads built with -race: 2-4 Modify sessions (negotiated one after the other, then run from real goroutines: ascending election ids from per-session disjoint sets with deliberate ties across sessions, batches over per-session disjoint keys with globally unique operation ids; one session in five ends with a request during which its client goes away - a response cannot be written - while the others go on), 0-2 Get readers and 0-2 Flush callers running concurrently over in-process streams (one random workload in four over a real grpc.Server on bufconn), GOMAXPROCS drawn from {2,4,16}, Gosched/microsleep perturbation at drawn points; plus election storms: 20-60 rounds in which 2-4 sessions announce distinct ids at the same moment (spin barrier), checked after every round. Oracle: no race-detector report (GORACE log parsed by the driver; signature = the racing gribigo functions), no panic/fatal error (process death is reported by the driver), every goroutine finishes under the watchdog (hang attributed from the goroutine dump), and at quiescence: learnt election id == maximum announced, primary is a session that announced it, every operation has exactly one terminal result, and - when no Flush overlapped - Get(ALL) equals the union of the per-session folds of acknowledged operations. Non-trivial = >=2 sessions announced while the others were still running and >=1 Get or Flush overlapped a Modify (measured with step counters); distinct by FNV-64 of the case JSON. Later additions: one workload in three on a server with both public RIB hooks registered (post-change hook taking a drawn time); per-session home instance for groups; goroutines creating network instances at runtime."
 	c.Assumptions = []string{"the Go scheduler owns the interleaving: evidence is the race detector's happens-before analysis on the executions seen, not coverage of all schedules"}
 }
 
